@@ -35,6 +35,7 @@ def case(arg):
     r = X.Runner(kn, [a, b], seed)
     ops = L.gen_ops(random.Random(seed), X.base_kind(kn), nops)
     extra = 0
+    failed_asks = [0]
 
     def fail(cl, det, i, op):
         return {"kind": kn, "seed": seed, "nops": nops, "fail": (cl, f"[{kn}] op {i} {op}: {det}"), "extra": extra}
@@ -46,26 +47,51 @@ def case(arg):
         try:
             if rng.random() < 0.35:
                 n = rng.choice([1, 1, 2, 3, 5])
-                if not (kn.split(":")[-1] == "seq" and n + len(r.told) + len(r.outstanding) > 10):
+                if kn.split(":")[-1] == "seq" and rng.random() < 0.15:
+                    n = rng.choice([8, 12, 30])  # more than a finite learner may have left: the request may fail
+                if True:
                     before = obs(kn, a)
-                    r1 = a.ask(n, tell_pending=False)
-                    r2 = a.ask(n, tell_pending=False)
-                    extra += 1
-                    if L.canon(r1) != L.canon(r2):
-                        return fail("repeat_differs", f"ask({n}, False) twice gave {r1[0]} then {r2[0]}", i, op)
-                    after = obs(kn, a)
-                    if before != after:
-                        d = [k for k in before if before[k] != after[k]]
-                        return fail("state_changed", f"ask({n}, False) changed {d}", i, op)
-                    if len(r1[0]) != n and kn != "seq":
-                        return fail("count", f"ask({n}, False) returned {len(r1[0])} points", i, op)
-                    if rng.random() < 0.4:
-                        # committing the same request: same points and improvements on both twins
-                        ra, rb = r.ask(n, True)
-                        if L.canon(ra) != L.canon(r1):
-                            return fail("commit_differs", f"ask({n}, True) returned {ra[0]} but ask({n}, False) had returned {r1[0]}", i, op)
-                        if L.canon(ra) != L.canon(rb):
-                            return fail("twin_answers", f"ask({n}, True): {ra[0]} vs twin {rb[0]}", i, op)
+                    try:
+                        r1 = a.ask(n, tell_pending=False)
+                    except Exception as e1:  # noqa: BLE001
+                        # a request that cannot be served (finite sequence exhausted, converged integrator): it must fail
+                        # cleanly - "no observable effect" holds for every request size
+                        after = obs(kn, a)
+                        if before != after:
+                            d = [k for k in before if before[k] != after[k]]
+                            return fail("failed_ask_changed_state",
+                                        f"ask({n}, False) raised {type(e1).__name__} and left {d} changed", i, op)
+                        try:
+                            a.ask(n, tell_pending=False)
+                            return fail("repeat_differs", f"ask({n}, False) raised {type(e1).__name__}, the repetition did not", i, op)
+                        except Exception as e2:  # noqa: BLE001
+                            if type(e2) is not type(e1):
+                                return fail("repeat_differs", f"ask({n}, False) raised {type(e1).__name__} then {type(e2).__name__}", i, op)
+                        if obs(kn, a) != before:
+                            return fail("failed_ask_changed_state", f"repeated failing ask({n}, False) changed the state", i, op)
+                        extra += 1
+                        failed_asks[0] += 1
+                        r1 = None
+                    if r1 is None:
+                        pass
+                    else:
+                      r2 = a.ask(n, tell_pending=False)
+                      extra += 1
+                      if L.canon(r1) != L.canon(r2):
+                          return fail("repeat_differs", f"ask({n}, False) twice gave {r1[0]} then {r2[0]}", i, op)
+                      after = obs(kn, a)
+                      if before != after:
+                          d = [k for k in before if before[k] != after[k]]
+                          return fail("state_changed", f"ask({n}, False) changed {d}", i, op)
+                      if len(r1[0]) != n and kn.split(":")[-1] != "seq":
+                          return fail("count", f"ask({n}, False) returned {len(r1[0])} points", i, op)
+                      if rng.random() < 0.4:
+                          # committing the same request: same points and improvements on both twins
+                          ra, rb = r.ask(n, True)
+                          if L.canon(ra) != L.canon(r1):
+                              return fail("commit_differs", f"ask({n}, True) returned {ra[0]} but ask({n}, False) had returned {r1[0]}", i, op)
+                          if L.canon(ra) != L.canon(rb):
+                              return fail("twin_answers", f"ask({n}, True): {ra[0]} vs twin {rb[0]}", i, op)
             if act[0] == "ask":
                 ra, rb = r.ask(act[1], act[2])
                 if L.canon(ra) != L.canon(rb):
@@ -99,7 +125,7 @@ def case(arg):
         if oa != ob:
             d = [k for k in oa if oa[k] != ob[k]]
             return fail("twin_state", f"twins differ in {d} (A received {extra} non-committing asks)", i, op)
-    return {"kind": kn, "seed": seed, "nops": nops, "fail": None, "extra": extra}
+    return {"kind": kn, "seed": seed, "nops": nops, "fail": None, "extra": extra, "failed_asks": failed_asks[0]}
 
 
 def _points(kn, l):
@@ -121,10 +147,11 @@ def run(ctx):
     args = [(kn, ctx.rng.randrange(1 << 30), ctx.n(30, 60)) for kn in KINDS for _ in range(ctx.n(14, 300))]
     results = core.pmap(case, args)
     failures, dist, aborted = [], {}, {}
-    nextra = 0
+    nextra = nfailed = 0
     for r in results:
         dist[r["kind"]] = dist.get(r["kind"], 0) + 1
         nextra += r["extra"]
+        nfailed += r.get("failed_asks", 0)
         if r.get("aborted"):
             aborted[r["kind"] + ":" + r["aborted"]] = aborted.get(r["kind"] + ":" + r["aborted"], 0) + 1
         if r["fail"]:
@@ -148,7 +175,7 @@ def run(ctx):
                     "roll-back with utils.restore (snapshot of the attribute dictionary): for them only the twin oracle applies.",
         trusted=core.COMMON_TRUSTED + ["copy.deepcopy of a learner's __dict__ is an exact snapshot (utils.restore)"],
         assumptions=["Learner2D is exercised since its NumPy 2 / SciPy 1.15 breakage was repaired (fix: commits)"],
-        extra={"kinds": dist, "histories_aborted_by_exception_on_both_twins": aborted},
+        extra={"kinds": dist, "non_committing_asks_that_raised_and_left_the_state_unchanged": nfailed, "histories_aborted_by_exception_on_both_twins": aborted},
         partial=["LearnerND / IntegratorLearner / Learner2D have no Lean model of their ask roll-back: twin oracle only"],
     )
 
